@@ -478,7 +478,14 @@ pub fn run_property(def: &PropDef, tier: Tier, seed: u64, verif_root: &Path) -> 
             Ok((sub, case)) => match def.subs.iter().find(|s| s.name() == sub) {
                 None => infra.push(format!("probe {} names unknown sub {sub}", path.display())),
                 Some(s) => {
-                    let (r, _) = s.replay(&case, tier, &Known::empty());
+                    // schedule-dependent probes are retried a few times until they show the finding
+                    let mut r = s.replay(&case, tier, &Known::empty()).0;
+                    for _ in 0..e.retries {
+                        if r.is_err() {
+                            break;
+                        }
+                        r = s.replay(&case, tier, &Known::empty()).0;
+                    }
                     match r {
                         Err(f) if f.sig == e.key => {
                             let line = format!("KNOWN-FINDING: property={} {} [key={}]", def.id, e.what, e.key);
